@@ -299,6 +299,9 @@ class Module:
                     for t in st.targets:
                         if isinstance(t, ast.Name):
                             c.class_attrs[t.id] = st.value
+                            # `fire = fireEvent`: an alias of a method defined above
+                            if isinstance(st.value, ast.Name) and st.value.id in c.methods:
+                                c.methods.setdefault(t.id, c.methods[st.value.id])
                 elif isinstance(st, ast.AnnAssign) and isinstance(st.target, ast.Name) and st.value is not None:
                     c.class_attrs[st.target.id] = st.value
         elif isinstance(node, ast.Assign) and len(node.targets) == 1 and isinstance(node.targets[0], ast.Name):
